@@ -52,6 +52,9 @@ pub struct Inner {
     /// simulated latency of `get_keyspace_list` / `iter_metadata`: the snapshot is taken at once and handed
     /// back this many (tokio) milliseconds later, like a backend that answers from another thread
     pub read_latency_ms: u64,
+    /// simulated latency of the mutating calls: the write is performed at once and the call returns this many
+    /// (tokio) milliseconds later
+    pub write_latency_ms: u64,
 }
 
 /// Process-wide order of successful storage writes (all stores, all threads).
@@ -138,6 +141,10 @@ impl ModelStore {
     }
 
     async fn maybe_park(&self, park: bool) {
+        let latency = self.inner.lock().write_latency_ms;
+        if latency > 0 {
+            tokio::time::sleep(std::time::Duration::from_millis(latency)).await;
+        }
         if park {
             self.inner.lock().parked = true;
             // process death: this call never returns
